@@ -431,11 +431,19 @@ static void check_section_step(cfg_t *ctx, int accepted)
 		}
 	}
 #endif
-#ifdef CHK_C14
 #ifdef WITH_VALIDCB
+#ifdef CHK_C14
 	if (accepted || cb_valid_rc != 0)
 		V_ASSERT(n_validcb == 1, "[C14] a section's validation callback runs once when the section closes");
 #endif
+#ifdef CHK_C06
+	if (n_validcb == 1)
+		V_ASSERT(cb_valid_line == pre_line + body_lines, "[C06] a section's validation callback sees the context positioned at the section's closing brace");
+#endif
+#endif
+#ifdef CHK_C06
+	if (accepted)
+		V_ASSERT(ctx->line == pre_line + body_lines, "[C06] after a section the including context continues at the line where the section ended");
 #endif
 	(void)accepted;
 }
@@ -732,6 +740,18 @@ static void check_outcome(cfg_t *ctx, int act_kind, int act_state, struct pstate
 
 static void post_step(cfg_t *cfg, struct pstate *ps)
 {
+#if defined(CHK_C02) || defined(CHK_C07)
+	unsigned i;
+
+	V_ASSERT(*ps->comment == NULL || V_R_OK(*ps->comment, 1), "[C07] the pending annotation is either absent or a live string (never freed and kept)");
+	V_ASSERT(*ps->opttitle == NULL || V_R_OK(*ps->opttitle, 1), "[C07] the pending title is either absent or a live string");
+	for (i = 0; i < 3 && i < ps->funcopt->nvalues; i++)
+		V_ASSERT(V_R_OK(ps->funcopt->values[i], sizeof(cfg_value_t)) && V_R_OK(ps->funcopt->values[i]->string, 1), "[C07] collected call arguments are live");
+	if (*ps->opt != NULL && PSTATE <= 9) {
+		V_ASSERT((*ps->opt)->nvalues == 0 || V_R_OK((*ps->opt)->values, (*ps->opt)->nvalues * sizeof(cfg_value_t *)), "[C07] the value vector of the active option is live");
+		V_ASSERT((*ps->opt)->comment == NULL || V_R_OK((*ps->opt)->comment, 1), "[C07] the annotation of the active option is live");
+	}
+#endif
 	check_outcome(cfg, X_CONT, *ps->state, ps);
 }
 
